@@ -2,6 +2,7 @@ SPECIFICATION GSpec
 CONSTANTS N = 1
           OUTER = TRUE
           AFTER = TRUE
+          PRE = TRUE
 CHECK_DEADLOCK FALSE
 INVARIANT Emit
 INVARIANT CatchIdsUnique
